@@ -82,7 +82,13 @@ impl PreProcessContext {
                     return path;
                 }
             };
-            path = home_dir.join(&path[2..]).to_string_lossy().to_string();
+            // "~", "~/x": do not assume two bytes after the tilde
+            let rest = path.strip_prefix('~').unwrap_or("");
+            let rest = rest
+                .strip_prefix('/')
+                .or_else(|| rest.strip_prefix('\\'))
+                .unwrap_or(rest);
+            path = home_dir.join(rest).to_string_lossy().to_string();
         } else if path.starts_with("./") {
             path = self
                 .workspace
